@@ -385,7 +385,11 @@ func (s *session) clientReader() {
 func (s *session) cliWrite(fn func(*http2.Framer) error) error {
 	s.cfMu.Lock()
 	defer s.cfMu.Unlock()
-	s.cliConn.SetWriteDeadline(time.Now().Add(ioDeadline))
+	d := ioDeadline
+	if s.termed { // the relay may already have stopped reading: do not wait long for it to take trailing traffic
+		d = 100 * time.Millisecond
+	}
+	s.cliConn.SetWriteDeadline(time.Now().Add(d))
 	return fn(s.cf)
 }
 
